@@ -200,7 +200,7 @@ func runHdrRoundtrip(d hdrDesc) Outcome {
 func init() {
 	register(&Prop{
 		ID:       "C01",
-		Rule:     "well-formed packets from an abstract description: version 0-3, PT 0-127, 0-15 CSRCs (15 over-weighted), no extension | one-byte (0-14 elements, values 1-16 bytes) | two-byte (values 0-255 bytes) | legacy (whole words incl. empty), payload empty/1-4/0-199 bytes, padding 1-255; non-trivial = has CSRCs, an extension or padding",
+		Rule:     "well-formed packets from an abstract description: version 0-3, PT 0-127, 0-15 CSRCs (15 over-weighted), no extension | one-byte (0-14 elements, values 1-16 bytes) | two-byte (values 0-255 bytes) | legacy (whole words incl. empty), payload empty/1-4/0-199 bytes, padding 1-255; plus the largest legal extension blocks (255 two-byte ids x 255 bytes; legacy values of 16383, 16384 and 65535 words); non-trivial = has CSRCs, an extension or padding",
 		Quick:    6000,
 		Thorough: 300000,
 		Gen: func(r *RNG, tier string, n int, emit func(op int, toks ...Tok)) {
@@ -213,6 +213,22 @@ func init() {
 			d3 := hdrDesc{version: 3, ext: true, profile: 0x1000, exts: []extD{{255, []byte{}}, {1, bytes.Repeat([]byte{9}, 255)}}}
 			emit(110, d3.tok(), TB([]byte{}), TI(0))
 			emit(111, d3.tok())
+			// the largest legal extension blocks: all 255 two-byte ids with 255-byte values (65535 bytes,
+			// 16384 words), one id short of that, and legacy values of 16383 / 16384 / 65535 words -
+			// the 16-bit length field counts words, so byte arithmetic must not be done in 16 bits
+			full := hdrDesc{version: 2, ext: true, profile: 0x1000}
+			for id := 1; id <= 255; id++ {
+				full.exts = append(full.exts, extD{uint8(id), bytes.Repeat([]byte{byte(id)}, 255)})
+			}
+			emit(111, full.tok())
+			emit(110, full.tok(), TB([]byte{1, 2, 3}), TI(0))
+			almost := full
+			almost.exts = full.exts[:254]
+			emit(111, almost.tok())
+			for _, words := range []int{16383, 16384, 65535} {
+				lg := hdrDesc{version: 2, ext: true, profile: 0x1234, exts: []extD{{0, bytes.Repeat([]byte{0xAB}, 4*words)}}}
+				emit(110, lg.tok(), TB([]byte{9}), TI(0))
+			}
 			for i := 0; i < n; i++ {
 				c := r.Fork(uint64(i))
 				if c.Intn(3) == 0 {
